@@ -33,6 +33,9 @@ class SyncProducer:
         if not self.period:
             raise ValueError("A valid transmission period has not been given")
 
+        # Stop an already running transmission, otherwise its task would be
+        # leaked and keep transmitting
+        self.stop()
         self._task = self.network.send_periodic(self.cob_id, [], self.period)
 
     def stop(self):
